@@ -156,7 +156,22 @@ def check(chk):
     chk.judge(good, 'C30.pk', fm, 'routing_key_indexes = [statement_indexes[c.name] for c in partition_key_columns] (partition-key order)',
               'routing indexes are no longer listed in partition-key order: a composite key bound with markers in another order gets the wrong routing key / token')
     s = src(fm)
-    chk.judge('statement_indexes = dict(((c.name, i) for i, c in enumerate(column_metadata)))' in s and 'partition_key_columns = table_meta.partition_key' in s, 'C30.pk', fm,
+    # the index map: {column name: position in the statement's column metadata}, as a dict() over a generator or a dict comprehension, whatever the variable names
+    def _is_index_map(v):
+        comp_, key_, val_ = None, None, None
+        if isinstance(v, ast.DictComp):
+            comp_, key_, val_ = v, v.key, v.value
+        elif isinstance(v, ast.Call) and src(v.func) == 'dict' and len(v.args) == 1 and isinstance(v.args[0], (ast.GeneratorExp, ast.ListComp)) and isinstance(v.args[0].elt, ast.Tuple) and len(v.args[0].elt.elts) == 2:
+            comp_, key_, val_ = v.args[0], v.args[0].elt.elts[0], v.args[0].elt.elts[1]
+        if comp_ is None or len(comp_.generators) != 1 or comp_.generators[0].ifs:
+            return False
+        gen_ = comp_.generators[0]
+        if src(gen_.iter) != 'enumerate(column_metadata)' or not (isinstance(gen_.target, ast.Tuple) and len(gen_.target.elts) == 2):
+            return False
+        iv, cv = src(gen_.target.elts[0]), src(gen_.target.elts[1])
+        return src(key_) == '%s.name' % cv and src(val_) == iv
+    maps_ = [st for st in body_walk(fm) if isinstance(st, ast.Assign) and src(st.targets[0]) == 'statement_indexes']
+    chk.judge(len(maps_) == 1 and _is_index_map(maps_[0].value) and 'partition_key_columns = table_meta.partition_key' in s, 'C30.pk', fm,
               'statement_indexes maps column name -> bind position; key columns from table_meta.partition_key', 'index map / key column source changed')
     chk.judge('except KeyError' in s, 'C30.pk', fm, 'a missing key component leaves routing_key_indexes None', 'partial key produces a routing key')
     calls = [n for n in body_walk(fm) if isinstance(n, ast.Call) and src(n.func) == 'PreparedStatement']
